@@ -655,8 +655,9 @@ func oracle(c *hc.Ctx, d *Doc, svg string, p Parsed) {
 	wantW, wantH := sd.VW*mmPerPx, sd.VH*mmPerPx
 	near := func(a, b float64) bool { return math.Abs(a-b) <= 1e-9*(1+math.Abs(b)) }
 	if !near(p.C.W, wantW) || !near(p.C.H, wantH) {
+		// a size that is exactly the px numbers taken as mm is that defect whatever else the document has
 		kind := "canvas-size" + firstFeature(d, "viewbox-origin")
-		if kind == "canvas-size" && near(p.C.W, sd.VW) && near(p.C.H, sd.VH) {
+		if near(p.C.W, sd.VW) && near(p.C.H, sd.VH) {
 			kind = "canvas-size:px-as-mm"
 		}
 		fail(c, kind, fmt.Sprintf("canvas is %v x %v mm, the document's viewport is %v x %v px = %v x %v mm", p.C.W, p.C.H, sd.VW, sd.VH, wantW, wantH), replay)
